@@ -271,3 +271,78 @@ Fixpoint ralign_ok (L : Z) (field : Z -> list Z) (f : list Z) (m : smode2) (pos 
 
 Definition line_guard (fmt : list Z) (cs : callsite) (msg : list Z) (L : Z) (o : oracles) : bool :=
   ralign_ok L (dyn_field cs (cstr msg) o) (cstr fmt) QLit 0.
+
+(* ------------------------------------------------------------------ one walk for both passes (used by the proofs) *)
+(* [item ralign digits text c] = (source text, width, padding in front) of the directive whose conversion character
+   is c; the dynamic pass (qb_log_target_format) and the static pass (qb_log_target_format_static) differ only here *)
+Definition item_fn := bool -> list Z -> list Z -> Z -> (list Z * Z * bool).
+Inductive gmode := GLit | GDir (ralign : bool) (ds : list Z) (dash_ok : bool) (txt : list Z).
+
+Fixpoint render_gen (L : Z) (item : item_fn) (f : list Z) (m : gmode) : list Z :=
+  match f with
+  | [] => match m with
+          | GLit => []
+          | GDir r ds _ txt => let '(s, w, r') := item r ds txt 0 in pad_chop L s w r'
+          end
+  | c :: f' =>
+    match m with
+    | GLit => if c =? 37 then render_gen L item f' (GDir false [] true [37]) else c :: render_gen L item f' GLit
+    | GDir r ds dk txt =>
+      if dk && (c =? 45) then render_gen L item f' (GDir true ds false (txt ++ [c]))
+      else if is_digit c then render_gen L item f' (GDir r (ds ++ [c]) false (txt ++ [c]))
+      else let '(s, w, r') := item r ds txt c in pad_chop L s w r' ++ render_gen L item f' GLit
+    end
+  end.
+
+Fixpoint guard_gen (L : Z) (item : item_fn) (f : list Z) (m : gmode) (pos : Z) : bool :=
+  match f with
+  | [] => match m with
+          | GLit => true
+          | GDir r ds _ txt => let '(s, w, r') := item r ds txt 0 in item_ok L r' s w pos
+          end
+  | c :: f' =>
+    match m with
+    | GLit => if c =? 37 then guard_gen L item f' (GDir false [] true [37]) pos else guard_gen L item f' GLit (pos + 1)
+    | GDir r ds dk txt =>
+      if dk && (c =? 45) then guard_gen L item f' (GDir true ds false (txt ++ [c])) pos
+      else if is_digit c then guard_gen L item f' (GDir r (ds ++ [c]) false (txt ++ [c])) pos
+      else let '(s, w, r') := item r ds txt c in
+           item_ok L r' s w pos && guard_gen L item f' GLit (pos + zlen (pad_chop L s w r'))
+    end
+  end.
+
+Definition item_dyn (sfield : Z -> list Z) : item_fn := fun r ds _ c => (sfield c, atoi_cutoff ds, r).
+Definition item_sta (field : Z -> option (list Z)) : item_fn := fun r ds txt c =>
+  match field c with
+  | Some s => (s, atoi_cutoff ds, r)
+  | None => (txt ++ (if c =? 0 then [] else [c]), zlen txt + 1, false)
+  end.
+
+(* ------------------------------------------------------------------ specification of qb_log_format_set's expansion *)
+(* %P %N %H (with the optional '-' and width) are replaced by pid / name / host name, padded or chopped; every other
+   directive is copied as it stands, for the dynamic pass; a directive cut short by the end of the format gains a blank;
+   the result is cut to L-1 characters *)
+Definition static_field (o : oracles) (c : Z) : option (list Z) :=
+  if c =? 80 then Some (o_pid o) else if c =? 78 then Some (o_name o) else if c =? 72 then Some (o_host o) else None.
+
+Fixpoint render_static (L : Z) (field : Z -> option (list Z)) (f : list Z) (m : gmode) : list Z :=
+  match f with
+  | [] => match m with GLit => [] | GDir _ _ _ txt => txt ++ [32] end
+  | c :: f' =>
+    match m with
+    | GLit => if c =? 37 then render_static L field f' (GDir false [] true [37]) else c :: render_static L field f' GLit
+    | GDir r ds dk txt =>
+      if dk && (c =? 45) then render_static L field f' (GDir true ds false (txt ++ [c]))
+      else if is_digit c then render_static L field f' (GDir r (ds ++ [c]) false (txt ++ [c]))
+      else match field c with
+           | Some s => pad_chop L s (atoi_cutoff ds) r
+           | None => txt ++ [c]
+           end ++ render_static L field f' GLit
+    end
+  end.
+
+Definition static_spec (fmt : list Z) (L : Z) (o : oracles) : list Z :=
+  takeZ (L - 1) (render_static L (static_field o) (cstr fmt) GLit).
+
+Definition static_guard (fmt : list Z) (L : Z) (o : oracles) : bool :=
+  guard_gen L (item_sta (static_field o)) (cstr fmt) GLit 0.
